@@ -604,3 +604,30 @@ package input
 //@        g != h + "InContext" && g != "Must" + h && g != "Must" + h + "InContext"
 //@     && g + "InContext" != "Must" + h && g + "InContext" != "Must" + h + "InContext" && "Must" + g != h + "InContext"
 //@   ensures [embedded_field] *s1.Getter != "Container" && *s1.Getter + "InContext" != "Container" && "Must" + *s1.Getter != "Container"
+
+// ---- C11 / C18: the default validator applies all five groups of rules (version gate, meta, parameters, services,
+// decorators), each once.
+//@ func DefaultMetaValidators
+//@   property C11
+//@   ensures [meta] len(result) == 1 && (forall m Input :: apply(result[0], m) == ValidateMeta(m))
+//@ func DefaultParamsValidators
+//@   property C11
+//@   ensures [params] len(result) == 1 && (forall m Input :: apply(result[0], m) == ValidateParams(m))
+//@ func DefaultServicesValidators
+//@   property C11 C13 C15
+//@   ensures [services] len(result) == 1 && (forall m Input :: apply(result[0], m) == ValidateServices(m))
+//@ func DefaultDecoratorsValidators
+//@   property C11 C04
+//@   ensures [decorators] len(result) == 1 && (forall m Input :: apply(result[0], m) == ValidateDecorators(m))
+//@ func DefaultVersionValidators
+//@   property C18 C11
+//@   ensures [one_gate] len(result) == 1
+//@ func NewDefaultValidator
+//@   property C11 C18 C13 C15 C04
+//@   ensures [meta_rules_applied] result != nil && (exists j int :: 0 <= j && j < len(result.validators) && (forall m Input :: apply(result.validators[j], m) == ValidateMeta(m)))
+//@   ensures [param_rules_applied] exists j int :: 0 <= j && j < len(result.validators) && (forall m Input :: apply(result.validators[j], m) == ValidateParams(m))
+//@   ensures [service_rules_applied] exists j int :: 0 <= j && j < len(result.validators) && (forall m Input :: apply(result.validators[j], m) == ValidateServices(m))
+//@   ensures [decorator_rules_applied] exists j int :: 0 <= j && j < len(result.validators) && (forall m Input :: apply(result.validators[j], m) == ValidateDecorators(m))
+//@ func NewValidator
+//@   property C11
+//@   ensures [keeps_the_list] result != nil && result.validators == validators
